@@ -16,7 +16,7 @@
     add                  FS.add  (fuel bounds the add → walkTo → add nesting)
     resolve / walkLoop / walkTo   FS.walkTo and its `Resolve:` loop
     getInode             FS.getInode
-    prepMember / newFS   the loop body of New, and New with the final cleanup
+    prepMember / dirOverLink / newFS   the loop body of New, and New with the final cleanup
     openFS / statFS / readDirFS / globFS / subFS    Open / Stat / ReadDir / Glob / Sub
     matchPat             path.Match for patterns made of literals, `*` and `?`
     walkDir              io/fs.WalkDir over the view (bounded)
@@ -269,11 +269,26 @@ def prepMember (fs : FS) (m : Member) : Option Inode :=
   | .reg => some { kind := .reg, name := n, link := m.link, children := none, data := some m.data }
   | .special => some { kind := .special, name := n, link := m.link, children := none, data := some [] }
 
+/-- The inode of a directory member. -/
+def dirInode (n link : Bytes) : Inode :=
+  { kind := .dir, name := n, link := link, children := some [], data := some [] }
+
+/-- The directory case of the loop of New when the name is taken: a hard link
+    whose target has not been seen gives way to the directory (the inode is
+    overwritten in place, cd416dbb); anything else stays. -/
+def dirOverLink (fs : FS) (m : Member) : FS :=
+  match m.kind, fs.get? (normPath m.name) with
+  | .dir, some idx =>
+    if (fs.ino idx).kind = .link ∧ (fs.get? (fs.ino idx).link).isNone then
+      { fs with inodes := fs.inodes.set idx (dirInode (normPath m.name) m.link) }
+    else fs
+  | _, _ => fs
+
 def addMembers : FS → HL → List Member → Except Err (FS × HL)
   | fs, hl, [] => .ok (fs, hl)
   | fs, hl, m :: ms =>
     match prepMember fs m with
-    | none => addMembers fs hl ms
+    | none => addMembers (dirOverLink fs m) hl ms
     | some ino =>
       match add addFuel fs hl ino.name ino true with
       | (fs', hl', none) => addMembers fs' hl' ms
